@@ -30,6 +30,7 @@ type Case struct {
 	DataWithEOF bool   `json:"data_with_eof"`
 	BufSize     int    `json:"buf_size,omitempty"` // icc only
 	Seekable    bool   `json:"seekable,omitempty"` // the scheduled source also implements io.Seeker
+	ZeroEvery   int    `json:"zero_every,omitempty"` // every n-th read returns (0, nil)
 }
 
 type iccOutcome struct {
@@ -58,7 +59,7 @@ func readICC(r *bufio.Reader) (o iccOutcome) {
 }
 
 func check(c Case) (kind, what string, nt bool) {
-	s := &src.Source{Data: c.Data, FaultAt: -1, Sizes: c.Sizes, DataWithEOF: c.DataWithEOF}
+	s := &src.Source{Data: c.Data, FaultAt: -1, Sizes: c.Sizes, DataWithEOF: c.DataWithEOF, ZeroEvery: c.ZeroEvery}
 	if c.Target == "icc" {
 		bs := c.BufSize
 		if bs == 0 {
@@ -82,7 +83,7 @@ func check(c Case) (kind, what string, nt bool) {
 	nt = s.MultiCall || s.ShortCalls > 0
 	if !ld.Same(ref, got) {
 		k := c.Target + "/differs"
-		return k, fmt.Sprintf("%s loader, schedule %v eof-with-data=%v: %s; all-at-once delivery: %s (%s)", c.Target, c.Sizes, c.DataWithEOF, got, ref, c.Desc), nt
+		return k, fmt.Sprintf("%s loader, schedule %v eof-with-data=%v: %s; all-at-once delivery: %s (%s)", c.Target, c.Sizes, c.DataWithEOF, got, ref, c.Desc) + zeroNote(c), nt
 	}
 	return "", "", nt
 }
@@ -105,15 +106,15 @@ func TestC08(t *testing.T) {
 		fmt.Println("REPLAY case passed")
 		return
 	}
-	ev.Rule("inputs: every repository image and profile, grammar-built seeds (incl. profiles > 4 KiB), hostile mini-files, rapid-generated valid files (ICC up to 70 KB, chunk headers straddling 4096*k), rapid structure-aware mutations and truncations of all of these. Schedules per input: fixed segment sizes 1,2,3,7,8,4095,4096,4097, rapid size lists, final data together with EOF; for the ICC reader bufio readers of size 16/64/4096/65536 in front of the scheduled source. Oracle (metamorphic): outcome tuple == outcome under all-at-once delivery from bytes.Reader. non-trivial = distinct (input, schedule) whose source delivered the input in >= 2 calls or returned a short count")
-	ev.Assume("error text is not compared, only success/error and values; a source never returns (0, nil)")
+	ev.Rule("inputs: every repository image and profile, grammar-built seeds (incl. profiles > 4 KiB), hostile mini-files, rapid-generated valid files (ICC up to 70 KB, chunk headers straddling 4096*k), rapid structure-aware mutations and truncations of all of these. Schedules per input: fixed segment sizes 1,2,3,7,8,4095,4096,4097, rapid size lists, final data together with EOF, every n-th read returning (0, nil); for the ICC reader bufio readers of size 16/64/4096/65536 in front of the scheduled source. Oracle (metamorphic): outcome tuple == outcome under all-at-once delivery from bytes.Reader. non-trivial = distinct (input, schedule) whose source delivered the input in >= 2 calls or returned a short count")
+	ev.Assume("error text is not compared, only success/error and values; a source returns (0, nil) only when the case says so (every n-th read, n >= 2, never twice in a row - what io.Reader calls 'nothing happened')")
 	all := append(seeds.All(), seeds.Hostile()...)
 	bad := map[string]bool{}
 	run := func(c Case) {
 		ev.Eval(1)
 		k, w, nt := check(c)
 		if nt {
-			ev.NT(ev.Hash(c.Target, c.Sizes, c.DataWithEOF, c.BufSize, c.Data))
+			ev.NT(ev.Hash(c.Target, c.Sizes, c.DataWithEOF, c.BufSize, c.ZeroEvery, c.Data))
 		}
 		if k != "" && !bad[k] {
 			bad[k] = true
@@ -135,6 +136,7 @@ func TestC08(t *testing.T) {
 			for _, target := range []string{ld.ForFormat(sd.Kind), "auto"} {
 				run(Case{Desc: sd.Name, Data: sd.Data, Target: target, Sizes: sc, DataWithEOF: si%2 == 1})
 				run(Case{Desc: sd.Name, Data: sd.Data, Target: target, Sizes: sc, DataWithEOF: si%2 == 0, Seekable: true})
+				run(Case{Desc: sd.Name, Data: sd.Data, Target: target, Sizes: sc, DataWithEOF: si%2 == 1, ZeroEvery: 2 + si%3})
 			}
 		}
 	}
@@ -234,10 +236,13 @@ func TestC08(t *testing.T) {
 		}
 		c.DataWithEOF = rapid.Bool().Draw(rt, "dataeof")
 		c.Seekable = rapid.IntRange(0, 2).Draw(rt, "seekable") == 0
+		if rapid.IntRange(0, 3).Draw(rt, "zeroreads") == 0 {
+			c.ZeroEvery = rapid.SampledFrom([]int{2, 3, 5, 10}).Draw(rt, "zeroevery")
+		}
 		ev.Eval(1)
 		k, w, nt := check(c)
 		if nt {
-			ev.NT(ev.Hash(c.Target, c.Sizes, c.DataWithEOF, c.BufSize, c.Data))
+			ev.NT(ev.Hash(c.Target, c.Sizes, c.DataWithEOF, c.BufSize, c.ZeroEvery, c.Data))
 		}
 		ev.Class("rapid-"+c.Target, 1)
 		if ev.SampleN() < 5 {
@@ -250,4 +255,11 @@ func TestC08(t *testing.T) {
 	if ev.Violations() > 0 {
 		t.Fail()
 	}
+}
+
+func zeroNote(c Case) string {
+	if c.ZeroEvery > 1 {
+		return fmt.Sprintf(" [every %d-th read returned (0, nil)]", c.ZeroEvery)
+	}
+	return ""
 }
